@@ -201,16 +201,27 @@ class Lookup(Harness):
         ask = [float('nan') if (first_nan and k == 0) else i['ask'][k] for k in range(n)]
         symbolic = not isinstance(i['q'], pd.Timestamp)
         ds = object.__new__(CSV)
+        # a second source over the SAME directory and asset but with other bars (e.g. raw vs adjusted, or a rewritten file)
+        # answers the same query first: the answer of `ds` must come from its own bars
+        ds0 = object.__new__(CSV)
+        for d in (ds0, ds):
+            d.csv_dir, d.adjust_prices, d.csv_symbols, d.asset_type = '/data/csv', True, None, None
+        bid0 = [b if b != b else b + 1 for b in bid]
+        ask0 = [a if a != a else a + 2 for a in ask]
         if symbolic:
             ds.asset_bid_ask_frames = {'EQ:A': FrameStub([(i['t'][k], {'Bid': bid[k], 'Ask': ask[k]}) for k in range(n)])}
-            raw_bid, raw_ask = CSV.get_bid.__wrapped__, CSV.get_ask.__wrapped__
-            ds.get_bid = lambda dt, a: raw_bid(ds, dt, a)
-            ds.get_ask = lambda dt, a: raw_ask(ds, dt, a)
+            ds0.asset_bid_ask_frames = {'EQ:A': FrameStub([(i['t'][k], {'Bid': bid0[k], 'Ask': ask0[k]}) for k in range(n)])}
+            raw_bid, raw_ask = getattr(CSV.get_bid, '__wrapped__', CSV.get_bid), getattr(CSV.get_ask, '__wrapped__', CSV.get_ask)
+            for d in (ds0, ds):
+                d.get_bid = (lambda dt, a, d=d: raw_bid(d, dt, a))
+                d.get_ask = (lambda dt, a, d=d: raw_ask(d, dt, a))
         else:
-            CSV.get_bid.cache_clear()
-            CSV.get_ask.cache_clear()
+            getattr(CSV.get_bid, 'cache_clear', lambda: None)()
+            getattr(CSV.get_ask, 'cache_clear', lambda: None)()
             ds.asset_bid_ask_frames = {'EQ:A': pd.DataFrame({'Bid': bid, 'Ask': ask}, index=pd.DatetimeIndex(i['t'], name='Date'))}
+            ds0.asset_bid_ask_frames = {'EQ:A': pd.DataFrame({'Bid': bid0, 'Ask': ask0}, index=pd.DatetimeIndex(i['t'], name='Date'))}
         q = i['q']
+        ds0.get_bid(q, 'EQ:A'); ds0.get_ask(q, 'EQ:A')
         res = dict(first_nan=first_nan, bid=ds.get_bid(q, 'EQ:A'), ask=ds.get_ask(q, 'EQ:A'))
         dh = BacktestDataHandler(None, data_sources=[ds])
         res['h_bid'] = dh.get_asset_latest_bid_price(q, 'EQ:A')
